@@ -105,7 +105,7 @@ def ResumeIU (K V : Type) : Prop :=
 def ResumeID (K V : Type) : Prop :=
   ∀ (lt : K → K → Bool) (P : Params K) (t : Nat) (s : St K V) (k : Kont K V) (H : List Lk)
     (Wit : Nat → K → Prop),
-    isDelK k = true → KParams lt P → Pre P (kontHole k) s → KontOk s.tree k →
+    isDelK k = true → 4 ≤ s.tree.order → KParams lt P → Pre P (kontHole k) s → KontOk s.tree k →
     KontPre s.cursor k → Covers H s.cursor k →
     OrdTree lt s.tree → KPos lt s.tree k →
     (∀ r x, Wit r x → Lk.node r ∉ H) →
